@@ -12,6 +12,7 @@ import common as C  # noqa: E402
 
 MODULES = {
     "C01": ("p_content", "run"), "C16": ("p_content", "run"),
+    "C02": ("p_entries", "run"),
 }
 
 
